@@ -9,6 +9,7 @@ import (
 	_ "github.com/saucelabs/forwarder/verifharness/c08"
 	_ "github.com/saucelabs/forwarder/verifharness/c09"
 	_ "github.com/saucelabs/forwarder/verifharness/c10"
+	_ "github.com/saucelabs/forwarder/verifharness/c11"
 	_ "github.com/saucelabs/forwarder/verifharness/c12"
 	_ "github.com/saucelabs/forwarder/verifharness/c13"
 	_ "github.com/saucelabs/forwarder/verifharness/c14"
